@@ -33,7 +33,9 @@ Exp ==
     first |-> [i \in 1..nh' |-> IF LiveP(i-1) /\ ListOf(cyc', i-1) # <<>> THEN Head(ListOf(cyc', i-1)) ELSE -1],
     last |-> [i \in 1..nh' |-> IF LiveP(i-1) /\ ListOf(cyc', i-1) # <<>> THEN ListOf(cyc', i-1)[Len(ListOf(cyc', i-1))] ELSE -1],
     chk |-> [i \in 1..nh' |-> IF LiveP(i-1) THEN Len(ListOf(cyc', i-1)) ELSE -1],
-    chkr |-> [i \in 1..nh' |-> IF LiveP(i-1) THEN Len(ListOf(cyc', i-1)) ELSE -1]]
+    chkr |-> [i \in 1..nh' |-> IF LiveP(i-1) THEN Len(ListOf(cyc', i-1)) ELSE -1],
+    \* every item is also a member of a second list through a second link field of the same type: all items (C), the live ones (C++), by id
+    all2 |-> SelectSeq([k \in 1..nn' |-> nh' + k - 1], LAMBDA c : flavor' = "c" \/ LiveP(c))]
    @@ (IF flavor' = "c"
        THEN [inm |-> [i \in 1..nh' |->
                 IF LiveP(i-1)
